@@ -88,7 +88,7 @@ def gen_case_dag(seed, tier, index=0, restart_bias=False):
         knobs['launch_delay'] = 0.0
     return {'comps': comps, 'stage_opts': stage_opts, 'plan': plan, 'hook': hook, 'hook_file': use_hook_file,
             'knobs': knobs, 'sched_seed': rr.getrandbits(48), 'pauses': common.gen_pauses(rr, 0.1),
-            'slow_wake_p': rr.choice([0.0, 0.3])}
+            'slow_wake_p': rr.choice([0.0, 0.3]), 'instability': common.gen_instability(rr, 0.12)}
 
 
 def gen_case_observer_race(seed, tier, index=0):
@@ -215,6 +215,10 @@ def gen_case_restart(seed, tier, index=0):
 
 
 def shrink_candidates(case):
+    if case.get('instability'):
+        c = copy.deepcopy(case)
+        c['instability'] = []
+        yield c
     if case.get('pauses'):
         c = copy.deepcopy(case)
         c['pauses'] = []
@@ -876,6 +880,8 @@ def run_case(case, schedule, opts):
             ctx.controller = controller
             if case.get('pauses'):
                 R.start_operator(case['pauses'], slow_wake_p=case.get('slow_wake_p', 0.0))
+            if case.get('instability'):
+                R.start_instability(case['instability'])
             nodes = node_table(controller)
             try:
                 R.run_stages(exp, controller, REC, outcomes)
